@@ -97,7 +97,7 @@ class Check:
 
     # -- output --------------------------------------------------------------
     def finish(self):
-        evdir = os.path.join(VERIF, "evidence")
+        evdir = os.environ.get("VERIF_EVIDENCE_DIR") or os.path.join(VERIF, "evidence")
         os.makedirs(evdir, exist_ok=True)
         vdir = os.path.join(evdir, "%s.violations" % self.prop)
         if os.path.isdir(vdir):
